@@ -237,6 +237,7 @@ def c05(tier):
     kb.kb3(P, C)
     n = kb.kb6(P, C)
     C.extra["index_sites"] = kb.kb5(P, C)
+    kb.kb8(P, C)
     kb.sc4(P, C)
     # which core reads centers[D]/order[D]/strides[D] is decided by the dispatch table
     dp.dp(P, C)
@@ -425,6 +426,7 @@ def c06(tier):
     fs.fs6(P, C)
     fs.fs7(P, C)
     fs.fs8(P, C)
+    kb.kb8(P, C)
     # legacy files (no EXTENTS / PERIOD): a failed HDU move must keep its status until tested
     sm.sm6(P, C)
     # auxiliary values survive the round trip only if write_key refuses what a card cannot hold
@@ -493,6 +495,8 @@ def c01(tier):
     kb.kb2b(P, C)
     kb.kb4(P, C)
     kb.sc123(P, C)
+    # the local-basis outer product is walked with scratch arrays on the stack: they must hold any dimension count
+    kb.kb8(P, C)
     dp.cl4(P, C)
     dp.cl1(P, C)
     dp.dp(P, C)
